@@ -179,3 +179,12 @@ package adjRIBOut
 //@   nosafety
 //@   acquires 80
 //@   locks C25
+
+// checkPropagateUpdate withdraws what the session holds for the prefix when
+// the path must not be propagated on an add-path session: it takes the table
+// lock itself (removePathsForPrefix) and must be called without it.
+//@ contract (*AdjRIBOut).checkPropagateUpdate
+//@   props C25 C26
+//@   acquires 30
+//@   locks C25
+//@   guards C26
